@@ -124,7 +124,8 @@ def v2(ctx):
 @rule("V3", doc="a variant is accepted only if its name-free shape equals the pattern node's")
 def v3(ctx):
     crate = ctx.lib()
-    b = fn(crate, "ematch_node", "rewrite/ematch.rs")
+    from .c04 import MATCHER_ANCHORS
+    b = mir.inline_view(crate, fn(crate, "ematch_node", "rewrite/ematch.rs"), keep=MATCHER_ANCHORS)
     ext = [c for c in b.calls if c.callee and c.callee.name == "extend" and strip_role(b.role_of_operand(c.args[0])) == ("param", "out")]
     ctx.floor("result extension sites", len(ext), 1)
     for c in ext:
@@ -158,6 +159,42 @@ def v3(ctx):
             bad = [c for c in ext if c.bb in reach]
             ctx.check(not bad, "conflict-abandons-variant", "after a slot conflict the variant is abandoned (control returns to the variant loop)",
                       "after try_insert_compatible_slotmap_bij returned false the variant can still be accepted", where_of(b, sb))
+
+
+MS = "rewrite::multipat::MultiState"
+
+
+def multipat_roles(crate):
+    """role sets of the multi-pattern matcher, discovered by behaviour (robust to renames / free fn <-> method):
+       slot_find  : reads MultiState.slot_uf, writes nothing of the state, returns a Slot
+       appid_find : calls a slot_find function and returns an AppliedId
+       allows     : reads MultiState.pattern_slots, returns bool, writes nothing"""
+    key = "multipat_roles"
+    if key in crate._cache:
+        return crate._cache[key]
+    writers = set()
+    for f in ("slot_uf", "pattern_slots", "diseq_constraints", "subst"):
+        writers |= set(crate.field_writers(MS, f))
+
+    def ret_ty(b):
+        return b.local_ty(0)
+    uf_readers = set(crate.field_readers(MS, "slot_uf"))
+    slot_find = {bid for bid in uf_readers if bid in crate.bodies and crate.bodies[bid].kind != "Closure" and bid not in writers and ret_ty(crate.bodies[bid]) == "slot::Slot"}
+    appid_find = set()
+    for b in crate.fns():
+        if ret_ty(b) == "types::AppliedId" and (b.file or "").endswith("multipat.rs") and any(c.callee and c.callee.target in slot_find for c in b.all_calls()):
+            appid_find.add(b.id)
+    ps_readers = set(crate.field_readers(MS, "pattern_slots"))
+    allows = {bid for bid in ps_readers if bid in crate.bodies and crate.bodies[bid].kind != "Closure" and bid not in writers and ret_ty(crate.bodies[bid]) == "bool"}
+    out = {"slot_find": slot_find, "appid_find": appid_find, "allows": allows,
+           "slot_find_names": {crate.bodies[x].name for x in slot_find}, "appid_find_names": {crate.bodies[x].name for x in appid_find},
+           "allows_names": {crate.bodies[x].name for x in allows}}
+    crate._cache[key] = out
+    return out
+
+
+def _calls_deep_any(crate, role, names):
+    return any(C.role_calls_deep(crate, role, n) for n in names)
 
 
 @rule("V4", doc="multi-pattern unify: accepted only behind eq or after a successful slot union; different classes never unify")
@@ -200,7 +237,10 @@ def v4(ctx):
         ctx.check(ok, "recursion-after-slot-union", "the recursive attempt uses the state returned by a successful union_slot",
                   "unify recurses with state %s, not with the result of union_slot" % role_str(st)[:100], where_of(b, c.bb))
     # operands are canonicalised against the state first
-    fs = [c for c in b.calls if c.callee and c.callee.name == "state_appid_find"]
+    mr = multipat_roles(crate)
+    C.need("slot find of the multi-pattern state (reads slot_uf, returns Slot)", sorted(mr["slot_find"]))
+    C.need("invocation find of the multi-pattern state", sorted(mr["appid_find"]))
+    fs = [c for c in b.calls if c.callee and c.callee.target in mr["appid_find"]]
     ctx.check(len(fs) >= 2, "operands-canonicalised", "both invocations are canonicalised against the slot union-find first", "unify does not canonicalise its operands", where_of(b))
     es = fn(crate, "extend_subst", "rewrite/multipat.rs")
     ok = any(c.callee and c.callee.target == b.id for c in es.calls) and any(c.callee and c.callee.name == "insert" for c in es.calls)
@@ -224,7 +264,8 @@ def v5(ctx):
 @rule("V7", doc="multi-pattern state stays canonical after a slot union")
 def v7(ctx):
     crate = ctx.lib()
-    MS = "rewrite::multipat::MultiState"
+    mr = multipat_roles(crate)
+    C.need("slot find of the multi-pattern state (reads slot_uf, returns Slot)", sorted(mr["slot_find"]))
     rekey = [b for b in crate.fns() if any(k == "store" for wid, v in crate.field_writers(MS, "diseq_constraints").items() if wid == b.id for (_, _, k, _) in v)]
     C.need("state re-keying function (stores MultiState.diseq_constraints)", [b.id for b in rekey])
     ctx.roleset("rekey", [b.id for b in rekey])
@@ -237,16 +278,16 @@ def v7(ctx):
             if c.callee.name in ("entry", "insert") and "HashMap<slot::Slot, std::collections::HashSet<slot::Slot" in b.local_ty(mir.op_place(c.args[0])["l"]).replace("&mut ", "") or \
                (c.callee.name in ("entry",) and role_mentions_call(b.role_of_operand(c.args[0]), "default")):
                 n += 1
-                ctx.check(C.role_calls_deep(crate, b.role_of_operand(c.args[1]), "state_find"), "rekey-key-canonical:" + C.fkey(b), "constraint keys are re-keyed through state_find",
+                ctx.check(_calls_deep_any(crate, b.role_of_operand(c.args[1]), mr["slot_find_names"]), "rekey-key-canonical:" + C.fkey(b), "constraint keys are re-keyed through state_find",
                           "%s re-keys the disequality table with a slot that did not go through state_find" % C.short(b.id), where_of(b, c.bb))
             if c.callee.name in ("extend", "insert") and role_mentions_call(b.role_of_operand(c.args[0]), "or_default"):
                 n += 1
-                ctx.check(C.role_calls_deep(crate, b.role_of_operand(c.args[1]), "state_find"), "rekey-members-canonical:" + C.fkey(b), "constraint members are canonicalised through state_find",
+                ctx.check(_calls_deep_any(crate, b.role_of_operand(c.args[1]), mr["slot_find_names"]), "rekey-members-canonical:" + C.fkey(b), "constraint members are canonicalised through state_find",
                           "%s copies the members of a disequality set without canonicalising them (state_find): once both slots of a constraint have been renamed the constraint mentions only dead names and two slots that must stay distinct can be unified — the matcher returns a non-bijective invocation" % C.short(b.id),
                           where_of(b, c.bb))
         ctx.floor("table writes in " + C.short(b.id), n, 2)
         # substitution values
-        st = [s for bi, si, s in b.statements() if s["k"] == "assign" and "*" in s["lhs"]["p"] and role_mentions_call(b.role_of_rvalue(s["rv"]), "state_appid_find")]
+        st = [s for bi, si, s in b.statements() if s["k"] == "assign" and "*" in s["lhs"]["p"] and any(role_mentions_call(b.role_of_rvalue(s["rv"]), n_) for n_ in mr["appid_find_names"])]
         ctx.check(bool(st), "subst-values-canonical:" + C.fkey(b), "every substitution value is re-canonicalised (state_appid_find)",
                   "%s no longer re-canonicalises the substitution values after a slot union" % C.short(b.id), where_of(b))
         lp = [l for l in C.iterator_loops(b)]
@@ -271,28 +312,37 @@ def v8(ctx):
                     dirs += 1
         # the two `if let Some(..)` tests are skipped when no constraint set exists; then the false edge does not dominate.
         # count the contains tests that lie on every path where their set exists instead:
-        tests = [x for x in b.calls if x.callee and x.callee.name == "contains" and role_mentions_field(b.role_of_operand(x.args[0]), "diseq_constraints")]
-        keys = set()
-        for x in tests:
-            g = [y for y in role_walk(b.role_of_operand(x.args[0])) if isinstance(y, tuple) and y[0] == "call" and y[1] == "get"]
-            for y in g:
-                keys.add(role_str(y[3][1]))
+        gets = [x for x in b.calls if x.callee and x.callee.name == "get" and x.args and role_mentions_field(b.role_of_operand(x.args[0]), "diseq_constraints") and not b.blocks[x.bb]["cleanup"]]
+        keys = {role_str(b.role_of_operand(x.args[1])) for x in gets if len(x.args) > 1}
+        tests = []          # (contains call, switch block in b deciding on it, edge taken when the constraint is violated)
+        for sb in b.switch_blocks():
+            t = b.blocks[sb]["term"]
+            r0 = b.role_of_operand(t["discr"])
+            r = strip_role(r0)
+            if not (isinstance(r, tuple) and r[0] == "call"):
+                continue
+            hit = False
+            if r[1] == "contains" and role_mentions_field(r, "diseq_constraints"):
+                hit = True
+            elif r[1] in ("is_some_and", "map_or", "is_some_and") and r[3] and role_mentions_field(r[3][0], "diseq_constraints"):
+                cl = strip_role(r[3][-1])
+                if cl[0] == "agg" and cl[1] in crate.bodies and any(x.callee and x.callee.name == "contains" for x in crate.bodies[cl[1]].calls):
+                    hit = True
+            if hit:
+                te = [("e", sb, "otherwise")] if any(v == "0" for v, _ in t["cases"]) else [("e", sb, "1")]
+                tests.append((sb, te))
         ctx.check(len(tests) >= 2 and len(keys) >= 2, "both-directions", "the disequality constraint is tested for x against y and for y against x",
-                  "union_slot tests the disequality constraint in %d direction(s) only" % len(keys), where_of(b, c.bb))
-        for x in tests:
+                  "union_slot tests the disequality constraint in %d direction(s) only" % min(len(keys), len(tests)), where_of(b, c.bb))
+        for sb, te in tests:
             # a positive test must lead to None without linking
-            for sb in b.switch_blocks():
-                t = b.blocks[sb]["term"]
-                r = strip_role(b.role_of_operand(t["discr"]))
-                if isinstance(r, tuple) and r[0] == "call" and r[4] == x.bb:
-                    te = [("e", sb, "otherwise")] if any(v == "0" for v, _ in t["cases"]) else [("e", sb, "1")]
-                    ok = c.bb not in b.reach(te)
-                    ctx.check(ok, "violated-constraint-blocks-link:%d" % x.bb, "a violated constraint returns without linking", "union_slot can link two slots although a disequality constraint forbids it", where_of(b, sb))
+            ok = c.bb not in b.reach(te)
+            ctx.check(ok, "violated-constraint-blocks-link:%d" % tests.index((sb, te)), "a violated constraint returns without linking", "union_slot can link two slots although a disequality constraint forbids it", where_of(b, sb))
         up = {x.bb for x in b.calls if x.callee and x.callee.name == "update_state" or (x.callee and x.callee.target in [y.id for y in crate.fns() if any(k == "store" for wid, v in crate.field_writers("rewrite::multipat::MultiState", "diseq_constraints").items() if wid == y.id for (_, _, k, _) in v)])}
         ctx.check(bool(up) and b.must_pass(b.after(c.bb), b.return_blocks(), up), "link-then-rekey", "after linking the state is re-keyed on every path",
                   "union_slot links two slots and can return without re-keying the state", where_of(b, c.bb))
         # pattern slots are never replaced
-        ok = any(cond[0] == "true" and role_str(cond[1]).startswith("allows_directed_union(") for e, cond in conds)
+        allow_true = [e for e, cond in C.all_cond_edges(b) if cond[0] == "true" and isinstance(strip_role(cond[1]), tuple) and strip_role(cond[1])[0] == "call" and strip_role(cond[1])[1] in multipat_roles(crate)["allows_names"]]
+        ok = bool(allow_true) and b.must_pass([0], {c.bb}, allow_true)
         ctx.check(ok, "pattern-slots-stay", "a slot is replaced only if allows_directed_union (it is not a pattern slot)", "union_slot can replace a pattern slot", where_of(b, c.bb))
 
 
@@ -311,7 +361,6 @@ RULES.append(v5w)
 @rule("V9", doc="the slots of one e-node are declared pairwise distinct, all of them (also redundant and bound ones), per e-node")
 def v9(ctx):
     crate = ctx.lib()
-    MS = "rewrite::multipat::MultiState"
     adders = [b for b in crate.fns() if any(k == "mutborrow" for wid, v in crate.field_writers(MS, "diseq_constraints").items() if wid == b.id for (_, _, k, _) in v)
               and not any(k == "store" for wid, v in crate.field_writers(MS, "diseq_constraints").items() if wid == b.id for (_, _, k, _) in v)]
     C.need("constraint adder (mutably borrows MultiState.diseq_constraints)", [b.id for b in adders])
